@@ -324,7 +324,11 @@ var smtKeyword = map[string]bool{"assert": true, "and": true, "or": true, "not":
 	"strofdec": true, "deraddr": true, "deraddr_m": true, "deraddr_k": true, "to_real": true, "mod": true, "div": true, "Int": true, "Bool": true, "Real": true}
 
 func runZ3File(bin, file string, capS int) (verdict string, values map[string]string, hadErr bool) {
-	out, _ := exec.Command(bin, fmt.Sprintf("-T:%d", capS), file).Output()
+	return runZ3FileArgs(bin, file, capS)
+}
+
+func runZ3FileArgs(bin, file string, capS int, extra ...string) (verdict string, values map[string]string, hadErr bool) {
+	out, _ := exec.Command(bin, append(append([]string{fmt.Sprintf("-T:%d", capS)}, extra...), file)...).Output()
 	lines := strings.Split(string(out), "\n")
 	verdict = "unknown"
 	values = map[string]string{}
@@ -425,6 +429,7 @@ type FinalPool struct {
 	dir      string
 	keepAll  bool
 	solverT  int64 // ns
+	fallbacks int64 // queries decided by a second attempt (other z3 build / other seed)
 }
 
 func (p *FinalPool) submit(q *FinalQuery, text string) {
@@ -448,6 +453,19 @@ func (p *FinalPool) submit(q *FinalQuery, text string) {
 		if hadErr {
 			v = "unknown"
 			q.Note = "solver reported (error"
+		}
+		if v == "unknown" && !hadErr {
+			// undecided within the cap: second attempts before giving up - the other z3 build, then the main one with another
+			// random seed (non-linear queries are sensitive to both). A verdict from a fallback is recorded in the note.
+			if fv, fvals, ferr := runZ3File(z3Cross, q.File, p.capS); !ferr && fv != "unknown" {
+				v, vals = fv, fvals
+				q.Note = "decided by " + z3Cross + " after " + z3Main + " did not decide within the cap"
+				atomic.AddInt64(&p.fallbacks, 1)
+			} else if sv, svals, serr := runZ3FileArgs(z3Main, q.File, p.capS, "smt.random_seed=7", "sat.random_seed=7"); !serr && sv != "unknown" {
+				v, vals = sv, svals
+				q.Note = "decided by " + z3Main + " with random seed 7 after the default run did not decide within the cap"
+				atomic.AddInt64(&p.fallbacks, 1)
+			}
 		}
 		q.Result, q.Values = v, vals
 		doCross := p.cross && v != "unknown"
